@@ -92,6 +92,36 @@ def walk(case, rec, mo):
     return evs
 
 
+def fork_diff(case, io, fields, compare_results, fmt=None):
+    """a deep copy of the live object, continued after the original was played on, must go through the same steps: compared
+    on the observables the property owns (and on accept/reject if it owns those)"""
+    fk = io.get("fork")
+    if not fk:
+        return None
+    for j, fst in enumerate(fk["steps"]):
+        if fst is None:
+            continue
+        i = fk["from"] + j
+        if i >= len(io["steps"]):
+            break
+        mst = io["steps"][i]
+        op = case["ops"][i]
+        what = fmt(op) if fmt else op.get("o")
+        if compare_results and fst["r"] != mst["r"]:
+            return (f"a deep copy taken before step {fk['from']} and continued later: step {i} {what} went {fst['r']} "
+                    f"({fst.get('e', '')}) on the copy, {mst['r']} on the original")
+        if "s" in fst and "s" in mst:
+            for f in fields:
+                a, b = fst["s"].get(f), mst["s"].get(f)
+                if a != b and not (f in ("pay", "rake", "pnl") and a is not None and b is not None and a != "!" and b != "!"
+                                   and len(a) == len(b) and all(core.close(x, y) for x, y in zip(a, b))):
+                    return (f"a deep copy taken before step {fk['from']} and continued later differs at step {i} {what}: "
+                            f"{f} = {str(a)[:120]} on the copy, {str(b)[:120]} on the original")
+        elif ("s" in fst) != ("s" in mst) and compare_results:
+            return f"a deep copy taken before step {fk['from']}: step {i} {what} accepted on one object only"
+    return None
+
+
 class PokerProp(Prop):
     batch = 40
     probes = 2
@@ -174,7 +204,12 @@ class PokerProp(Prop):
         evs = walk(case, io, mo)
         cw = self.correspondence(case, evs)
         ow = self.oracle(case, evs)
+        fd = fork_diff(case, io, self.fields, self.compare_results)
+        if fd:
+            ow = [fd] + ow
         key, tags = self.key_tags(case, evs)
+        if io.get("fork"):
+            tags = list(tags) + ["forked"]
         return Verdict(not cw, not ow, " ;; ".join([w[:500] for w in (ow[:6] + cw[:3])]), key, tags)
 
     def shrink_candidates(self, case):
